@@ -45,7 +45,7 @@ fn text(rng: &mut Rng, w: u16, multiline: bool) -> String {
 }
 
 #[derive(Clone, Debug)]
-pub enum BOp { Adv(u64), Tick, Inc(u64), Dec(u64), SetPos(u64), Msg(String), Prefix(String), Len(Option<u64>), Println(String), Suspend(Vec<String>), Reset, Finish(Fin), FinishStyle, Drop }
+pub enum BOp { Iter(u64), Adv(u64), Tick, Inc(u64), Dec(u64), SetPos(u64), Msg(String), Prefix(String), Len(Option<u64>), Println(String), Suspend(Vec<String>), Reset, Finish(Fin), FinishStyle, Drop }
 #[derive(Clone, Debug)]
 pub enum Fin { Leave, Clear, Abandon, Msg(String), AbandonMsg(String) }
 
@@ -56,6 +56,7 @@ impl Fin {
 impl BOp {
     pub fn enc(&self) -> String {
         match self {
+            BOp::Iter(k) => format!("iter {k}"),
             BOp::Adv(d) => format!("adv {d}"), BOp::Tick => "tick".into(), BOp::Inc(d) => format!("inc {d}"), BOp::Dec(d) => format!("dec {d}"),
             BOp::SetPos(p) => format!("setpos {p}"), BOp::Msg(m) => format!("msg {}", enc(m)), BOp::Prefix(m) => format!("prefix {}", enc(m)),
             BOp::Len(None) => "len none".into(), BOp::Len(Some(l)) => format!("len {l}"), BOp::Println(m) => format!("println {}", enc(m)),
@@ -83,7 +84,7 @@ pub fn gen_case(rng: &mut Rng, fit_only: bool) -> Case {
             0 | 1 => BOp::Tick, 2 | 3 => BOp::Inc(*rng.pick(&[0, 1, 3, 1000])), 4 => BOp::Dec(1), 5 => BOp::SetPos(rng.below(12)),
             6 | 7 | 8 => BOp::Msg(text(rng, w, true)), 9 => BOp::Prefix(text(rng, w.min(6), false)), 10 => BOp::Len(if rng.chance(1, 4) { None } else { Some(rng.below(20)) }),
             11 | 12 | 13 => BOp::Println(text(rng, w, true)), 14 => { let k = rng.below(3) as usize; BOp::Suspend((0..k).map(|_| text(rng, w, false)).collect()) }
-            15 => BOp::Reset, 16 => BOp::Finish(fin(rng, w)), 17 => BOp::FinishStyle,
+            15 => BOp::Reset, 16 => BOp::Finish(fin(rng, w)), 17 => if rng.chance(1, 2) { BOp::FinishStyle } else { BOp::Iter(rng.below(4)) },
             18 | 19 => BOp::Adv(*rng.pick(&[0, 1, 999_999, 1_000_000, 3_900_000, 50_000_000, 1_000_000_000, 60_000_000_000])),
             20 => BOp::Adv(rng.below(2_000_000)),
             _ => BOp::Tick,
@@ -104,10 +105,10 @@ pub fn gen_case(rng: &mut Rng, fit_only: bool) -> Case {
     Case { w, h, hz, tpl, len, on_finish, ops }
 }
 
-pub fn encode(c: &Case) -> String {
+pub fn encode(c: &Case, ops: &[String]) -> String {
     let hdr = format!("BAR FX={} {} {} {} {} {} {} {}", crate::common::fx("draw"), c.w, c.h, c.hz, T0, c.tpl, c.len.map_or("none".into(), |l| l.to_string()), c.on_finish.enc());
     let mut s = hdr;
-    for op in &c.ops { s.push_str(" ; "); s.push_str(&op.enc()); }
+    for op in ops { s.push_str(" ; "); s.push_str(op); }
     s
 }
 
@@ -120,7 +121,9 @@ fn wrap(line: &str, w: usize) -> Vec<String> {
 fn show_rows(rows: &[String]) -> String { rows.iter().map(|r| r.chars().map(|c| (c as u32).to_string()).collect::<Vec<_>>().join(".")).collect::<Vec<_>>().join("|") }
 
 /// runs the case on the real crate; returns (observation, oracle verdict)
-pub fn run_case(c: &Case) -> (String, String) {
+/// runs the case on the real crate; returns (observation, oracle verdict, the operations as the model sees them)
+pub fn run_case(c: &Case) -> (String, String, Vec<String>) {
+    let mut enc_ops: Vec<String> = Vec::new();
     vh::set_auto_advance_ns(0);
     vh::set_now_ns(T0);
     let rec = Recorder::new(c.h, c.w, true);
@@ -143,7 +146,19 @@ pub fn run_case(c: &Case) -> (String, String) {
         let before = rec.st.lock().unwrap().snapshots.len();
         let Some(bar) = pb.as_ref() else { break };
         let mut mid_logs: Option<(Vec<String>, Vec<String>)> = None;
+        // several gated `inc`s in one operation: the last painted frame need not show the last of them, unless a
+        // (forced) finishing draw ends the operation
+        let mut judge_screen = true;
+        match op { BOp::Iter(_) => {} _ => enc_ops.push(op.enc()) }
         match op {
+            // iterator-driven completion: every item is an `inc(1)`, exhaustion finishes the bar by its configured
+            // behaviour unless it is finished already (the model is given exactly this expansion)
+            BOp::Iter(n) => {
+                let was_finished = bar.is_finished();
+                for _ in bar.wrap_iter(0..*n) {}
+                for _ in 0..*n { enc_ops.push("inc 1".into()); }
+                if !was_finished { enc_ops.push("finishstyle".into()); hidden = matches!(c.on_finish, Fin::Clear); } else { judge_screen = false; }
+            }
             BOp::Adv(d) => { now += d; vh::set_now_ns(now); }
             BOp::Tick => bar.tick(), BOp::Inc(d) => bar.inc(*d), BOp::Dec(d) => bar.dec(*d), BOp::SetPos(p) => bar.set_position(*p),
             BOp::Msg(m) => bar.set_message(m.clone()), BOp::Prefix(m) => bar.set_prefix(m.clone()),
@@ -188,7 +203,7 @@ pub fn run_case(c: &Case) -> (String, String) {
         };
         let st = rec.st.lock().unwrap();
         let after = st.snapshots.len();
-        if after > before && verdict == "ok" {
+        if after > before && verdict == "ok" && judge_screen {
             let w = c.w as usize;
             let exp = |logs: &[String], frame: &[String]| -> Vec<String> {
                 let mut rows: Vec<String> = Vec::new();
@@ -225,16 +240,18 @@ pub fn run_case(c: &Case) -> (String, String) {
     let st = rec.st.lock().unwrap();
     let snaps: Vec<String> = st.snapshots.iter().zip(st.cursor_at_flush.iter()).map(|(rows, (r, cc))| format!("{r},{cc} {}", show_rows(rows))).collect();
     let obs = format!("calls={} pos={} fin={} {}", st.calls, fin_state.0, fin_state.1, snaps.join(" ; "));
-    (obs, verdict)
+    (obs, verdict, enc_ops)
 }
 
-pub fn run(seed: u64, tier: &str, out: &mut Out, fit_only: bool) {
-    let mut rng = Rng::new(seed);
+pub fn run(seed: u64, tier: &str, out: &mut Out, fit_only: bool, c04: bool) {
+    let mut rng = Rng::new(if c04 { seed ^ 0xC04 } else { seed });
     let n = if tier == "thorough" { 200_000 } else { 3_000 };
     for _ in 0..n {
         let c = gen_case(&mut rng, fit_only);
-        let case = encode(&c);
-        let (obs, verdict) = run_case(&c);
+        let (obs, mut verdict, ops) = run_case(&c);
+        let case = encode(&c, &ops);
+        // C04 uses these histories for its finish clauses only; the cursor finding F30 is judged by C01 / C19
+        if c04 && verdict.starts_with("FAIL F30") { verdict = "skip F30 is judged by C01".into(); }
         out.emit(&case, &format!("{obs} ORACLE {verdict}"));
     }
 }
